@@ -148,8 +148,18 @@ def relinker_passes_every_field(ctx, rep, rule):
         if init is None:
             continue
         params = list(init.params[1:])
+        p0 = m.params[1] if len(m.params) > 1 else None
+
+        def _same_class(fn):
+            # T(...), type(<node>)(...), <node>.__class__(...): all construct (a subclass of) the handler's class
+            if isinstance(fn, ast.Name) and fn.id == T:
+                return True
+            if isinstance(fn, ast.Call) and isinstance(fn.func, ast.Name) and fn.func.id == "type" and len(fn.args) == 1 and isinstance(fn.args[0], ast.Name) and fn.args[0].id == p0:
+                return True
+            return isinstance(fn, ast.Attribute) and fn.attr == "__class__" and isinstance(fn.value, ast.Name) and fn.value.id == p0
+
         for call in ast.walk(m.node):
-            if isinstance(call, ast.Call) and isinstance(call.func, ast.Name) and call.func.id == T:
+            if isinstance(call, ast.Call) and _same_class(call.func):
                 cons = construct_of(m, f"rebuilt:{T}")
                 if any(isinstance(a, ast.Starred) for a in call.args) or any(k.arg is None for k in call.keywords):
                     rep.undecided(rule, cons, f"`{ast.unparse(call)[:70]}` unpacks its arguments", f"{m.path}:{call.lineno}")
